@@ -208,7 +208,9 @@ def dykLoop (P1 P2 : V → V) (normSq : V → K) (eps : K) : Nat → Nat → Dyk
       | 0 => (s', false)
       | _ => dykLoop P1 P2 normSq eps fuel (k + 1) s'
 
-/-- `calc_proj_physical_with_var` on stacked vectors: `none` when `max_iteration = 0` (Python returns the unset `x_next`).
+/-- `calc_proj_physical_with_var` on stacked vectors (the conversions var ↔ stacked vector around it are not part of this
+function): `none` when `max_iteration = 0` (Python: the loop body never runs and the later read of `k` raises
+`UnboundLocalError`).
 `projEq`, `projIneq` are the two constraint projections, `order` decides which is applied first. -/
 def projPhysical (projEq projIneq : V → V) (order : Order) (normSq : V → K) (eps : K) (maxIter : Nat) (zero : V)
     (x0 : V) : Option (V × Bool) :=
@@ -361,8 +363,12 @@ def pgdbLoop (proj : V → V) (f : V → K) (grad : V → V) (dot : V → V → 
         pgdbLoop proj f grad dot sqrt mu gamma eps mode numHist btFuel fuel it.xNext errs' (it.xNext :: xs)
       else some (it.xNext :: xs, errs')
 
-/-- `optimize`: start point, loop, returned value.  `none` models both a line search that never ends and
-`max_iteration = 0` (Python returns `None` as the value). -/
+/-- `optimize`: start point, loop, returned value.  `none` models (a) a line search that does not end within `btFuel` tests in
+exact arithmetic — the float loop always ends, at the latest when `alpha` underflows to `0.0`, and then returns `x_next = x_prev`;
+the harness counts such steps — and (b) `max_iteration = 0` (Python: `UnboundLocalError` on `k` after the empty loop).
+`mu` is the resolved value (`option.mu` if truthy, else `3/(2√n)`; a falsy `mu = 0.0` selects the default, the model's
+`1 / mu` is never evaluated at `0` by the code).  `numHist ≥ 1` is enforced by the option constructor; at `0` Python's
+`error_values[-0:]` would be the whole list while `windowSum` gives the empty sum. -/
 def pgdbOptimize (proj : V → V) (f : V → K) (grad : V → V) (dot : V → V → K) (sqrt : K → K) (mu gamma eps : K)
     (mode : StopMode) (numHist btFuel maxIter : Nat) (xStart : V) : Option (V × List V × List K) :=
   match pgdbLoop proj f grad dot sqrt mu gamma eps mode numHist btFuel maxIter xStart [] [xStart] with
@@ -510,6 +516,44 @@ def handle (args : List String) : Option String :=
       match lmeSequence si opt checks optimize (fun r => r) timeReq detReq cur (List.range n) with
       | .error e => some s!"err {e.toString}"
       | .ok r => some s!"ok {showList (fun x => x) r.vars} {r.timed.isSome} {r.detailed.isSome} {r.estimatedVar.getD "indexerror"}"
+  | ["pgdbrun", n, ref, xs, lo, hi, mu, gamma, eps, mode, numHist, maxIter] => do
+      -- a WHOLE run of `pgdbOptimize` (loop, line search, stopping rule, returned point) with an exactly computable projection
+      -- (componentwise clamp to [lo, hi]) and the loss `‖x − ref‖²`; the real class is run with the same projection and loss
+      let n ← parseNat? n
+      let ref ← (parseList? parseRat? ref) >>= toVec n
+      let xs ← (parseList? parseRat? xs) >>= toVec n
+      let lo ← parseRat? lo
+      let hi ← parseRat? hi
+      let mu ← parseRat? mu
+      let gamma ← parseRat? gamma
+      let eps ← parseRat? eps
+      let mode ← StopMode.ofString? mode
+      let numHist ← parseNat? numHist
+      let maxIter ← parseNat? maxIter
+      let A : Mat Rat n n := Mat.one
+      let c : Vec Rat n := Vec.smul (-1) ref
+      let proj : Vec Rat n → Vec Rat n := fun v => Vec.ofFn fun i => if v.get i < lo then lo else if hi < v.get i then hi else v.get i
+      match pgdbOptimize proj (seValue A c) (seGrad A c) Vec.dot ratSqrt mu gamma eps mode numHist 1200 maxIter xs with
+      | none => some "none"
+      | some (x, hist, errs) =>
+        some s!"{hist.length - 1} {showVec x} {showList showRat errs} {";".intercalate (hist.reverse.map showVec)}"
+  | ["fistarun", n, ref, xs, lo, hi, delta, eps, mode, numHist, maxIter] => do
+      let n ← parseNat? n
+      let ref ← (parseList? parseRat? ref) >>= toVec n
+      let xs ← (parseList? parseRat? xs) >>= toVec n
+      let lo ← parseRat? lo
+      let hi ← parseRat? hi
+      let delta ← parseRat? delta
+      let eps ← parseRat? eps
+      let mode ← StopMode.ofString? mode
+      let numHist ← parseNat? numHist
+      let maxIter ← parseNat? maxIter
+      let A : Mat Rat n n := Mat.one
+      let c : Vec Rat n := Vec.smul (-1) ref
+      let proj : Vec Rat n → Vec Rat n := fun v => Vec.ofFn fun i => if v.get i < lo then lo else if hi < v.get i then hi else v.get i
+      let kc : Nat → Rat := fun k => (((k : Int) - 2 : Int) : Rat) / (((k : Int) + 1 : Int) : Rat)
+      let r := fistaLoop proj (seValue A c) (seGrad A c) Vec.dot ratSqrt delta eps kc mode numHist maxIter 1 xs xs []
+      some s!"{r.2.length} {showVec r.1} {showList showRat r.2}"
   | ["ple", order, n] => do
       let order ← parseOrder? order
       let n ← parseNat? n
